@@ -69,6 +69,10 @@ type Event struct {
 	Args   []Val
 	Rets   []Val
 	Seq    int
+	// maybe-events only: a call site inside a loop body whose iterations are summarized at the loop head
+	Head  *ssa.BasicBlock
+	Floor int
+	CC    *ssa.CallCommon
 }
 
 type Frame struct {
@@ -123,6 +127,7 @@ type State struct {
 	ctypes  []types.Type
 	frames  []*Frame
 	events  []Event
+	maybe   []Event // calls that earlier iterations of the loops entered on this path may have made
 	hyps    int
 	ghostB  map[string]bool
 	noHeap  bool // spec-definition mode: heaps are parameters
@@ -156,6 +161,7 @@ func (s *State) clone() *State {
 	n.cells = append([]Val(nil), s.cells...)
 	n.ctypes = append([]types.Type(nil), s.ctypes...)
 	n.events = append([]Event(nil), s.events...)
+	n.maybe = append([]Event(nil), s.maybe...)
 	for _, lc := range s.localCells {
 		c := *lc
 		n.localCells = append(n.localCells, &c)
